@@ -175,6 +175,24 @@ def run(ck: Check):
                                  f"wrote {n}; stderr file {len(err)}, the child wrote {n // 2}",
                                  {"reuse": True, "sizes": [n1, n2], "n": n})
 
+        # with the logging set-up of `lithium -v` (DEBUG) the outcome is reported all the same, in both capture modes
+        import logging
+        from runner import lithium_logging
+        with lithium_logging(logging.DEBUG):
+            for mode in (None, os.path.join(work, "dbg")):
+                for code, sig, sleep, want_s in ((0, None, 0, "NORMAL"), (3, None, 0, "ABNORMAL"), (77, None, 0, "CRASH"),
+                                                 (0, 11, 0, "CRASH"), (0, None, 3, "TIMEOUT")):
+                    try:
+                        rd = timed_run([PY, "-c", child(code, sleep=sleep, sig=sig), b"o".hex(), "1", b"e".hex(), "1"], 1, mode)
+                        got_s = rd.status.name
+                    except BaseException as exc:  # pylint: disable=broad-except
+                        got_s = f"raised {type(exc).__name__}: {exc}"
+                    ck.count("debug-logging")
+                    ck.nontrivial(("debug-logging", code, sig, sleep, mode is not None))
+                    if got_s != want_s:
+                        ck.violation(f"with DEBUG logging (lithium -v), child exit={code} sig={sig} sleep={sleep} "
+                                     f"({'log files' if mode else 'in memory'}): {got_s}, expected {want_s}",
+                                     {"code": code, "sig": sig, "sleep": sleep, "files": mode is not None, "logging": "DEBUG"})
         # the decision chain in isolation: stub child with arbitrary return codes
         class FakeChild:
             pid = 0
